@@ -507,6 +507,11 @@ def fam_load(rng):
                                                  {"op": "load", "m": "N2", "n": "N1", "kind": "extra", "v": 4}]))
     out.append(("tworules", 2, [G(), P("N1", "t1", 2), {"op": "craft", "s": "N3", "t": "t9", "l": 2, "r": 2, "w": 2, "id": 3},
                                 {"op": "load", "m": "N2", "n": "N1", "kind": "extra", "v": 3}]))
+    # a stream that consists of one forged root: self-sealed, with an empty / a non-canonical / an ordinary transaction
+    for t, sealer in (("t9", "A"), ("t10", "A"), ("t7", "N2"), ("t5", "B")):
+        out.append(("tworules", 2, [G(), {"op": "craft", "s": sealer, "t": t, "l": 0, "r": 0, "w": 1, "id": 2},
+                                    {"op": "load", "m": "N2", "n": "N1", "kind": "only", "v": 2},
+                                    {"op": "load", "m": "N2", "n": "N1"}]))
     # the sealing rules hold on a node that obtained its ledger by syncing
     out.append(("tworules", 2, [G(), P("N1", "t1", 2), {"op": "load", "m": "N2", "n": "N1"}, P("N2", "t8", 3), P("N2", "t7", 4),
                                 P("N2", "t9", 5), P("N2", "t5", 6), P("N1", "t7", 7), D("N1", 6), D("N2", 7),
